@@ -929,7 +929,7 @@ class VersionPackage(BaseVersion):
         return version
 
     def __hash__(self) -> int:
-        return hash(self.to_tuple()[:7])
+        return hash(self.__extract_tuple())
 
     def public(self) -> str:
         """Return a public version format string value."""
@@ -1125,7 +1125,7 @@ class VersionSemver(BaseVersion):
         return version
 
     def __hash__(self) -> int:
-        return hash(self.to_tuple()[:4])
+        return hash(self.__extract_tuple())
 
     def finalize_version(self) -> Self:
         """Remove any pre-release and build metadata from the version.
